@@ -4,39 +4,48 @@ import EosProofs.Lemmas.MicroTeardown
 `EosModel/WorldMicro.lean` models the calculation service at the granularity of its messages.  Its registers
 (`AffectionRegister`: affectee items, affector specs per affectee / domain / group / skill;
 `ProjectionRegister`: projectors, their targets, the projectors per target) are modelled by their
-*declarative content*: the loaded flag, the running-effect flags and the recorded projection targets of every
-item (`Micro.Dyn`), from which affector specs (`allSpecs`), affectees, direct invalidation targets and
-reverse dependencies are derived.  "The register retains no entry" is therefore stated as: the flags of every
-configured item are off (`DynEmptyOn`) — and every derived list is empty (`registers_empty`).
+*declarative content*: the loaded flag, the running-effect flags, the recorded projection targets and — the
+service's own `__warfare_buffs` register — the registered warfare-buff modifiers of every item (`Micro.Dyn`),
+from which affector specs (`allSpecs`), affectees, direct invalidation targets and reverse dependencies are
+derived.  "The register retains no entry" is therefore stated as: the flags of every configured item are off
+and nothing is recorded or registered for it (`DynEmptyOn`) — and every derived list is empty
+(`registers_empty`).
 
-The canonical tear-down of item `i` (`teardown i es s`, `es` = effect ids that may be running / applied) is
-the message sequence the item mixins publish when an item is removed: `EffectUnapplied` for every effect with
-recorded targets, `EffectsStopped` for the running effects, `ItemUnloaded` (followed by `attrs._clear()`). -/
+The canonical tear-down of item `i` (`teardown i es s`, `es` = effect ids that may be running / applied / have
+warfare-buff modifiers registered) is the message sequence the item mixins publish when an item is removed:
+`EffectUnapplied` for every effect with recorded targets, the drop of the registered warfare-buff modifiers
+(`buffset … []`; the service does it inside its `EffectsStopped` handler, after un-applying the boost),
+`EffectsStopped` for the running effects, `ItemUnloaded` (followed by `attrs._clear()`).  Nothing here assumes a
+universe without warfare-buff effects. -/
 namespace Eos.C11World
 open Eos.World Eos.Micro Eos.Micro.L Eos.DepCache Eos.Machine
 
 variable {u : Universe}
 
-/-- **(1) Tear-down of one item.**  After `teardown i es s` (with `es` covering the effects of `i` that run
-or have recorded targets): the configuration is unchanged; `i` is not loaded, none of its effects runs, no
-projector of `i` has a recorded target, and no cache entry of `i` remains; the flags of every other item are
-untouched, and the cache has only lost entries. -/
+/-- **(1) Tear-down of one item.**  After `teardown i es s` (with `es` covering the effects of `i` that run,
+have recorded targets or registered warfare-buff modifiers): the configuration is unchanged; `i` is not loaded,
+none of its effects runs, no projector of `i` has a recorded target or a registered warfare-buff modifier, and
+no cache entry of `i` remains; the registers of every other item are untouched, and the cache has only lost
+entries. -/
 theorem teardown_item (i : Nat) (es : List Int) (s : MState) (hcov : Covers s.dyn i es) :
     (mrun u s (teardown i es s)).cfg = s.cfg ∧
     (mrun u s (teardown i es s)).dyn.loaded i = false ∧
     (∀ e, (mrun u s (teardown i es s)).dyn.on i e = false) ∧
     (∀ e, (mrun u s (teardown i es s)).dyn.tgts i e = []) ∧
+    (∀ e, (mrun u s (teardown i es s)).dyn.bspecs i e = []) ∧
     (∀ a, (mrun u s (teardown i es s)).cache (i, a) = none) ∧
     (∀ j, j ≠ i → (mrun u s (teardown i es s)).dyn.loaded j = s.dyn.loaded j ∧
       ∀ e, (mrun u s (teardown i es s)).dyn.on j e = s.dyn.on j e ∧
-        (mrun u s (teardown i es s)).dyn.tgts j e = s.dyn.tgts j e) ∧
+        (mrun u s (teardown i es s)).dyn.tgts j e = s.dyn.tgts j e ∧
+        (mrun u s (teardown i es s)).dyn.bspecs j e = s.dyn.bspecs j e) ∧
     Cascade.Sub s.cache (mrun u s (teardown i es s)).cache :=
   have td := teardown_tornDown (u := u) i es s hcov
-  ⟨td.cfg, td.loaded, td.on, td.tgts, fun a => td.cache (i, a) rfl, td.other, td.sub⟩
+  ⟨td.cfg, td.loaded, td.on, td.tgts, td.bspecs, fun a => td.cache (i, a) rfl, td.other, td.sub⟩
 
 /-- **(2) Tear-down of everything.**  After tearing down every item of the configuration — in any order,
 `order` only has to mention every configured item — the registers hold nothing for the configured items
-(loaded flags, running effects, recorded targets) and the cache holds nothing for them. -/
+(loaded flags, running effects, recorded targets, registered warfare-buff modifiers) and the cache holds
+nothing for them. -/
 theorem teardown_all_empty (es : List Int) (order : List Nat) (s : MState) (hc : ∀ j, Covers s.dyn j es)
     (hall : ∀ x ∈ s.cfg.items, x.id ∈ order) :
     (mrun u s (teardownAll u es order s)).cfg = s.cfg ∧
@@ -143,11 +152,32 @@ example : teardown 0 [100] (mstep tinyU tinyS (.start 0 [100])) = [.stop 0 [100]
     K1Order (mstep tinyU tinyS (.start 0 [100])).dyn [] [0] := by
   refine ⟨rfl, ?_, fun _ _ _ h => (by cases h), ⟨fun _ _ h => (by cases h), trivial⟩⟩
   intro e he
-  rcases he with he | he
+  rcases he with he | he | he
   · have : (if (0 : Nat) = 0 ∧ e ∈ [(100 : Int)] then true else false) = true := he
     by_cases h : (0 : Nat) = 0 ∧ e ∈ [(100 : Int)]
     · exact h.2
     · rw [if_neg h] at this; cases this
   · exact absurd rfl he
+  · exact absurd rfl he
+
+/-- With warfare-buff modifiers registered for projector `(0, 100)` (and nothing running or applied) the
+tear-down of the ship drops them first; `[100]` covers what the registers hold, and afterwards nothing is
+registered. -/
+example :
+    let s : MState := { tinyS with dyn := { tinyS.dyn with
+      bspecs := fun i e => if i = 0 ∧ e = 100 then [⟨1, 4, none, 2, 9, 1, none, 1⟩] else [] } }
+    teardown 0 [100] s = [.buffset 0 100 [], .stop 0 [], .unload 0] ∧ Covers s.dyn 0 [100] ∧
+    ∀ e, (mrun tinyU s (teardown 0 [100] s)).dyn.bspecs 0 e = [] := by
+  intro s
+  have hcov : Covers s.dyn 0 [100] := by
+    intro e he
+    rcases he with he | he | he
+    · cases he
+    · exact absurd rfl he
+    · have he' : (if (0 : Nat) = 0 ∧ e = 100 then [(⟨1, 4, none, 2, 9, 1, none, 1⟩ : Modifier)] else []) ≠ [] := he
+      by_cases h : (0 : Nat) = 0 ∧ e = 100
+      · rw [h.2]; exact List.mem_singleton.2 rfl
+      · rw [if_neg h] at he'; exact absurd rfl he'
+  exact ⟨rfl, hcov, (teardown_item (u := tinyU) 0 [100] s hcov).2.2.2.2.1⟩
 
 end Eos.C11World
